@@ -28,7 +28,7 @@ def models(tier, seed):
 NOCHAIN = {'on': False, 'goto': 0, 'e': 1, 'tag': 0, 'prop': 0, 'double': False}
 
 
-def _rand_cfg(rnd, n, m, chains=True):
+def _rand_cfg(rnd, n, m, chains=True, xprob=0.12):
     def tgt(p_abs):
         r = rnd.random()
         if r < p_abs:
@@ -54,7 +54,8 @@ def _rand_cfg(rnd, n, m, chains=True):
             'cond': [cb() for _ in range(m)], 'enter': enter, 'exit': [cb() for _ in range(n)],
             'on_enter': [rnd.random() < .6 for _ in range(n)],
             'on_exit': [rnd.random() < .6 for _ in range(n)],
-            'on_notrans': rnd.random() < .7, 'on_output': rnd.random() < .7, 'chain': chain}
+            'on_notrans': rnd.random() < .7, 'on_output': rnd.random() < .7, 'chain': chain,
+            'xchain': [rnd.random() < xprob for _ in range(n)]}
 
 
 def _rand_seq(rnd, cfg, ln):
@@ -62,7 +63,8 @@ def _rand_seq(rnd, cfg, ln):
     for _ in range(ln):
         r = rnd.random()
         d = {'tag': rnd.randint(1, 5), 'chain': int(rnd.random() < .6),
-             'cond': int(rnd.random() < .75), 'condf': int(rnd.random() < .8)}
+             'cond': int(rnd.random() < .75), 'condf': int(rnd.random() < .8),
+             'xc': int(rnd.random() < .3)}
         if r < 0.12:
             seq.append({'goto': rnd.randint(1, cfg['n']), 'e': 0, 'd': d})
         elif r < 0.2:
@@ -91,7 +93,7 @@ def stimuli(tier, seed, ctx):
                                    'cond': [3, 1], 'enter': [3, 1], 'exit': [1, 3],
                                    'on_enter': [True, True], 'on_exit': [True, True],
                                    'on_notrans': True, 'on_output': True,
-                                   'chain': [dict(NOCHAIN), dict(NOCHAIN)]}
+                                   'chain': [dict(NOCHAIN), dict(NOCHAIN)], 'xchain': [False, k % 5 == 0]}
                             out.append({'cfg': cfg, 'seq': _rand_seq(rnd, cfg, 8)})
     # (ii) random machines with chains
     for _ in range(600 if tier == 'quick' else 15000):
@@ -137,7 +139,7 @@ def execute(stim):
         fsm = holder['fsm']
         et = edzed.Goto(f's{ch["goto"]}') if ch['goto'] else f'e{ch["e"]}'
         for _ in range(2 if ch['double'] else 1):
-            fsm.event(et, tag=ch['tag'], chain=ch['prop'], cond=1, condf=1)
+            fsm.event(et, tag=ch['tag'], chain=ch['prop'], cond=1, condf=1, xc=seen().get('xc', 0))
         return True
 
     def mk_cond(e, f):
@@ -157,7 +159,11 @@ def execute(stim):
 
     def mk_exit(s, f):
         def exit_(*_self):
-            rec('exit', s, f, seen().get('tag', 0))
+            d = seen()
+            rec('exit', s, f, d.get('tag', 0))
+            if cfg['xchain'][s - 1] and d.get('xc', 0):
+                # an exit action is not a permitted window: this must be refused (fatal)
+                holder['fsm'].event(edzed.Goto('s1'), tag=99)
         return exit_
 
     events = []
@@ -235,7 +241,7 @@ def execute(stim):
         return lg
 
     async def script(circuit, fsm, loop, clock):
-        d0 = {'tag': 0, 'chain': 0, 'cond': 1, 'condf': 1}
+        d0 = {'tag': 0, 'chain': 0, 'cond': 1, 'condf': 1, 'xc': 0}
         lines.append({'ev': 'event', 'goto': 1, 'e': 0, 'd': d0,
                       'ret': 'true' if circuit.error is None else 'error', 'st': _sid(fsm.state),
                       'out': _sid(fsm.output), 'log': norm(log), 'cerr': circuit.error is not None})
